@@ -23,7 +23,7 @@ def typedef(vf, src, path, kind, derive=None, pub_tuple_fields=False, subs=None)
     if pub_tuple_fields:
         p.sub("E1", r"\((?!pub)(\s*)([A-Za-z])", r"(\1pub \2", count=1, why="private tuple field made pub (visibility has no run-time meaning)")
     p.sub("E1", r"pub\((?:crate|super)\)", "pub", count=None, why="restricted visibility made pub")
-    p.sub("E1", r"\A(struct|enum|union) ", r"pub \1 ", count=None, why="private item made pub")
+    p.sub("E1", r"\A(\s*)(struct|enum|union) ", r"\1pub \2 ", count=None, why="private item made pub")
     for (a, b, c) in (subs or []):
         p.sub(a, b, c, count="+")
     hdr = ""
